@@ -79,6 +79,7 @@ type c12Env struct {
 	start time.Time
 	cfg   map[string]string
 	o     *Out // the case's output and ambient
+	app   *App // the case's application (streaminfo_test.go)
 }
 
 func (e *c12Env) nat(k string, def int) int {
@@ -111,26 +112,11 @@ func c12Info(ssrc uint32, twccExt bool) *interceptor.StreamInfo {
 
 // c12UnbindInfo: the StreamInfo an application hands to Unbind*Stream for a stream it bound with
 // `bound`.  Only the SSRC identifies the stream; everything else may be absent or renegotiated.
-func c12UnbindInfo(bound *interceptor.StreamInfo, how string) *interceptor.StreamInfo {
-	switch how {
-	case "ssrc":
-		return &interceptor.StreamInfo{SSRC: bound.SSRC}
-	case "nofb":
-		c := *bound
-		c.RTCPFeedback = nil
-		return &c
-	case "noext":
-		c := *bound
-		c.RTPHeaderExtensions = nil
-		return &c
-	case "reneg":
-		return &interceptor.StreamInfo{
-			SSRC: bound.SSRC, ClockRate: 48000, PayloadType: 111, MimeType: "audio/opus", Channels: 2,
-			RTCPFeedback:        []interceptor.RTCPFeedback{{Type: "goog-remb"}},
-			RTPHeaderExtensions: []interceptor.RTPHeaderExtension{{URI: "urn:ietf:params:rtp-hdrext:sdes:mid", ID: 9}},
-		}
+func c12UnbindInfo(app *App, bound, live *interceptor.StreamInfo, how string) *interceptor.StreamInfo {
+	if how == "" && app != nil {
+		return app.UnbindInfo(bound, live) // no `info=` on the op: the application's own schedule
 	}
-	return bound // "same" (and ops files written before `info=` existed)
+	return unbindInfoAs(bound, live, how) // streaminfo_test.go; "" / "same": the object handed to Bind*
 }
 
 var c12Payload = []byte{1, 2, 3, 4}
@@ -166,6 +152,8 @@ type c12Recv struct {
 	feeds   map[uint32]*c12Feed
 	readers map[uint32]interceptor.RTPReader
 	infos   map[uint32]*interceptor.StreamInfo
+	lives   map[uint32]*interceptor.StreamInfo // the objects the application handed to Bind*
+	app     *App
 	sz      func() map[string]int
 	scratch []byte
 	closed  bool
@@ -176,15 +164,17 @@ type c12Recv struct {
 // newC12Recv: `ic` is the interceptor in its ambient chain (env.o.Wrap), `sz` reads the interceptor itself.
 func newC12Recv(env *c12Env, ic interceptor.Interceptor, twccExt bool, sz func() map[string]int) *c12Recv {
 	return &c12Recv{o: env.o, ic: ic, twccExt: twccExt, feeds: map[uint32]*c12Feed{}, readers: map[uint32]interceptor.RTPReader{},
-		infos: map[uint32]*interceptor.StreamInfo{}, sz: sz, scratch: make([]byte, 1500)}
+		infos: map[uint32]*interceptor.StreamInfo{}, lives: map[uint32]*interceptor.StreamInfo{}, app: env.app, sz: sz, scratch: make([]byte, 1500)}
 }
 
 func (k *c12Recv) bind(ssrc uint32) {
 	delete(k.revoked, ssrc)
 	f := &c12Feed{}
 	info := c12Info(ssrc, k.twccExt)
-	k.feeds[ssrc], k.infos[ssrc] = f, info
-	k.o.InfoGuard("BindRemoteStream", info, func() { k.readers[ssrc] = k.ic.BindRemoteStream(info, f) })
+	live := k.app.BindInfo(info)
+	k.feeds[ssrc], k.infos[ssrc], k.lives[ssrc] = f, info, live
+	k.o.InfoGuard("BindRemoteStream", live, func() { k.readers[ssrc] = k.ic.BindRemoteStream(live, f) })
+	k.app.AfterBind(live) // Bind has returned: the object is the application's again
 }
 
 func (k *c12Recv) packet(ssrc uint32, seq uint16, lost bool) {
@@ -208,7 +198,7 @@ func (k *c12Recv) unbind(ssrc uint32, how string) {
 		if k.revoked != nil {
 			k.revoked[ssrc] = true
 		}
-		ui := c12UnbindInfo(info, how)
+		ui := c12UnbindInfo(k.app, info, k.lives[ssrc], how)
 		k.o.InfoGuard("UnbindRemoteStream", ui, func() { k.ic.UnbindRemoteStream(ui) })
 		delete(k.readers, ssrc)
 	}
@@ -231,6 +221,8 @@ type c12Send struct {
 	sink      *c12Sink
 	writers   map[uint32]interceptor.RTPWriter
 	infos     map[uint32]*interceptor.StreamInfo
+	lives     map[uint32]*interceptor.StreamInfo // the objects the application handed to Bind*
+	app       *App
 	sz        func() map[string]int
 	rtcpFeed  *c12Feed
 	rtcpRead  interceptor.RTCPReader
@@ -248,7 +240,7 @@ type c12Send struct {
 
 func newC12Send(ic interceptor.Interceptor, env *c12Env, twccExt bool, sz func() map[string]int) *c12Send {
 	k := &c12Send{o: env.o, ic: ic, env: env, twccExt: twccExt, sink: &c12Sink{}, writers: map[uint32]interceptor.RTPWriter{},
-		infos: map[uint32]*interceptor.StreamInfo{}, sz: sz, rtcpFeed: &c12Feed{}, lastLost: map[uint32]uint16{},
+		infos: map[uint32]*interceptor.StreamInfo{}, lives: map[uint32]*interceptor.StreamInfo{}, app: env.app, sz: sz, rtcpFeed: &c12Feed{}, lastLost: map[uint32]uint16{},
 		remoteTW: twcc.NewRecorder(7), remoteCC: rfc8888.NewRecorder(), scratch: make([]byte, 65536)}
 	k.rtcpRead = ic.BindRTCPReader(k.rtcpFeed)
 	k.rtcpWrite = ic.BindRTCPWriter(k.sink.rtcpWriter())
@@ -259,8 +251,10 @@ func (k *c12Send) bind(ssrc uint32) {
 	info := c12Info(ssrc, k.twccExt)
 	info.SSRCForwardErrorCorrection = ssrc + 1000
 	info.PayloadTypeForwardErrorCorrection = 118
-	k.infos[ssrc] = info
-	k.o.InfoGuard("BindLocalStream", info, func() { k.writers[ssrc] = k.ic.BindLocalStream(info, k.sink.rtpWriter()) })
+	live := k.app.BindInfo(info)
+	k.infos[ssrc], k.lives[ssrc] = info, live
+	k.o.InfoGuard("BindLocalStream", live, func() { k.writers[ssrc] = k.ic.BindLocalStream(live, k.sink.rtpWriter()) })
+	k.app.AfterBind(live) // Bind has returned: the object is the application's again
 }
 
 func (k *c12Send) packet(ssrc uint32, seq uint16, lost bool) {
@@ -302,7 +296,7 @@ func (k *c12Send) feedback() {
 
 func (k *c12Send) unbind(ssrc uint32, how string) {
 	if info := k.infos[ssrc]; info != nil {
-		ui := c12UnbindInfo(info, how)
+		ui := c12UnbindInfo(k.app, info, k.lives[ssrc], how)
 		k.o.InfoGuard("UnbindLocalStream", ui, func() { k.ic.UnbindLocalStream(ui) })
 		delete(k.writers, ssrc)
 	}
@@ -388,7 +382,7 @@ func c12New(env *c12Env) c12Kind {
 			revoked = map[uint32]bool{}
 			opts = append(opts, nack.GeneratorStreamsFilter(func(info *interceptor.StreamInfo) bool { return !revoked[info.SSRC] }))
 		}
-		f, err := nack.NewGeneratorInterceptor(opts...)
+		f, err := nack.NewGeneratorInterceptor(appShuffle(env.app, opts)...) // options of different fields commute
 		must(err)
 		ic, err := f.NewInterceptor("")
 		must(err)
@@ -483,8 +477,8 @@ func c12New(env *c12Env) c12Kind {
 		must(err)
 		return newC12Recv(env, env.o.Wrap(ic), false, ic.(*jitterbuffer.ReceiverInterceptor).VerifSizes)
 	case "flexfec":
-		f, err := flexfec.NewFecInterceptor(flexfec.NumMediaPackets(uint32(env.nat("media", 5))),
-			flexfec.NumFECPackets(uint32(env.nat("fec", 2))))
+		f, err := flexfec.NewFecInterceptor(appShuffle(env.app, []flexfec.FecOption{flexfec.NumMediaPackets(uint32(env.nat("media", 5))),
+			flexfec.NumFECPackets(uint32(env.nat("fec", 2)))})...)
 		must(err)
 		ic, err := f.NewInterceptor("")
 		must(err)
@@ -492,7 +486,7 @@ func c12New(env *c12Env) c12Kind {
 	case "leaky":
 		return &c12Leaky{p: gcc.NewLeakyBucketPacer(env.nat("rate", 1_000_000)), sink: &c12Sink{}}
 	case "pacing":
-		f := pacing.NewInterceptor(pacing.InitialRate(env.nat("rate", 1_000_000)), pacing.Interval(5*time.Millisecond))
+		f := pacing.NewInterceptor(appShuffle(env.app, []pacing.Option{pacing.InitialRate(env.nat("rate", 1_000_000)), pacing.Interval(5 * time.Millisecond)})...)
 		ic, err := f.NewInterceptor("x")
 		must(err)
 		pi := ic.(*pacing.Interceptor)
@@ -582,8 +576,9 @@ func c12Valid(m map[string]string, keys ...string) bool {
 }
 
 func runSizes(t *testing.T, ops []string, o *Out) {
+	app, ops := appOf(ops)
 	synctest.Test(t, func(t *testing.T) {
-		env := &c12Env{start: time.Now(), o: o}
+		env := &c12Env{start: time.Now(), o: o, app: app}
 		var k c12Kind
 		next := map[uint32]uint16{}
 		bound := map[uint32]bool{}
@@ -847,11 +842,11 @@ func genSizes(r *Rng, tier string, idx int) Case {
 	// (drawn per unbind, for every kind) must not matter for what is released.  The draws come
 	// after everything else of the case, so the traffic of a (seed, index) is what it always was.
 	unbindOp := func(s int) string {
-		how := r.Pick(0, 1, 1, 2, 3, 4)
+		how := r.Pick(0, 1, 1, 2, 3, 4, 5, 6)
 		if how == 0 {
 			return fmt.Sprintf("unbind ssrc=%d", s)
 		}
-		return fmt.Sprintf("unbind ssrc=%d info=%s", s, []string{"same", "ssrc", "nofb", "noext", "reneg"}[how])
+		return fmt.Sprintf("unbind ssrc=%d info=%s", s, []string{"same", "ssrc", "nofb", "noext", "reneg", "copy", "copy"}[how])
 	}
 	for s := 1; s <= streams; s++ {
 		ops = append(ops, unbindOp(s))
@@ -881,6 +876,11 @@ func genSizes(r *Rng, tier string, idx int) Case {
 		after := []string{"", "noop", "stats", "dumpr"}[r.Intn(4)]
 		ops = append([]string{ambOp(before, after, true, false, false, false)}, ops...)
 		cl += "-chain"
+	}
+	// the application (streaminfo_test.go), drawn after everything else: how it writes the feedback list down, what it does
+	// with its StreamInfo after Bind*, the order of its option list, its StreamInfo for an `unbind` without `info=`
+	if r.Chance(2, 3) {
+		ops = withApp(ops, genApp(r, 2, 3, 2, 3))
 	}
 	return Case{Class: cl, Ops: ops}
 }
